@@ -161,3 +161,63 @@ Print Assumptions C16_decode_prefix_refuted.
 Print Assumptions C16_arm_prefix_refuted.
 Print Assumptions C16_field_prefix_refuted.
 Print Assumptions C16_arm_lag_refuted.
+
+(* ------------------------------------------------------------------------------------------ *)
+(* The timer queue itself: coq/TimerWheel.v is an executable transliteration of tokio-util's
+   DelayQueue wheel (third-party: MODELLED; the server model uses it as its expiry-order oracle).
+   Inside its range - every deadline below 2^36 ms since the queue was created - it is a correct
+   priority queue: never early, complete, no loss or duplication, least deadline first; and in
+   every server run whose clock stays at or below 2^36 - 1 - MAX_TIMEOUT ms the oracle never
+   disagrees with the model's due set.  Beyond the range it is not (witnesses).  Names qualified. *)
+From Coq Require Import Permutation.
+From TarpcV Require Transport.
+From TarpcV Require TimerWheel Server TimerWheelProofs0 TimerWheelProofs4 TimerWheelProofs5 TimerWheelProofs6
+  TimerWheelWitness.
+Local Open Scope N_scope.
+
+(* the queue invariant holds initially and is kept by insert (for deadlines below 2^36 ms since the
+   queue's start), remove and poll_expired *)
+Theorem C16_dq_init : TimerWheelProofs4.DI TimerWheel.dq_init.
+Proof. exact TimerWheelProofs4.DI_init. Qed.
+
+Theorem C16_dq_insert : forall (id when_abs : N) (q : TimerWheel.dqueue),
+  TimerWheelProofs4.DI q ->
+  N.max when_abs (TimerWheel.w_elapsed (TimerWheel.dq_wheel q)) < TimerWheelProofs0.RNG ->
+  TimerWheelProofs4.DI (TimerWheel.dq_insert id when_abs q) /\
+  Permutation (TimerWheelProofs4.contents (TimerWheel.dq_insert id when_abs q))
+    ({| TimerWheel.we_id := id;
+        TimerWheel.we_when := N.max when_abs (TimerWheel.w_elapsed (TimerWheel.dq_wheel q)) |}
+     :: TimerWheelProofs4.contents q).
+Proof. intros id w q D R. destruct (TimerWheelProofs4.dq_insert_spec id w q D R) as (A & B & _). split; assumption. Qed.
+
+(* poll_expired: never early, complete (incl. the fuel of both loops), no loss / no duplication,
+   least deadline first (see TimerWheelProofs4.poll_post) *)
+Theorem C16_dq_poll : forall (clock : N) (q : TimerWheel.dqueue),
+  TimerWheelProofs4.DI q ->
+  TimerWheel.w_elapsed (TimerWheel.dq_wheel q) <= clock -> TimerWheel.dq_wheel_now q <= clock ->
+  forall r q', TimerWheel.dq_poll clock q = (r, q') -> TimerWheelProofs4.poll_post clock q r q'.
+Proof. exact TimerWheelProofs4.dq_poll_spec. Qed.
+
+(* Server.v (no request limiter, EVERY transport, EVERY op list): while the clock - the sum of
+   the OAdvance steps - stays at or below 2^36 - 1 - MAX_TIMEOUT = 37183476735 ms, the order
+   oracle never disagrees: OOracle is never printed (s_bad stays false) *)
+Theorem C16_server_oracle_agrees :
+  forall (T C : Type) (tp : Transport.transport T Server.response Server.cmsg) (ctl : T -> C -> T) (tfuel : T -> nat)
+         (t0 : T) (ops : list (Server.op C)),
+  TimerWheelProofs6.advs ops <= TimerWheelProofs5.LIMIT ->
+  forall l, In l (fst (Server.run tp ctl tfuel (Server.mkcfg None 100) t0 ops)) -> ~ In Server.OOracle l.
+Proof. intros T C tp ctl tfuel. exact (TimerWheelProofs6.server_oracle_agrees tp ctl tfuel). Qed.
+
+(* the range cannot be replaced by the real insert's own check `when - elapsed <= MAX_DURATION` *)
+Theorem C16_dq_incomplete_inside_insert_contract :
+  let q := snd (TimerWheel.dq_poll (TimerWheelWitness.E0 + 5) TimerWheelWitness.r2_state) in
+  fst (TimerWheel.dq_poll (TimerWheelWitness.E0 + 2 ^ 31) q) = TimerWheel.DQPending
+  /\ TimerWheel.dq_delay (snd (TimerWheel.dq_poll (TimerWheelWitness.E0 + 2 ^ 31) q))
+     = Some (TimerWheelWitness.E0 - 500 + 2 ^ 36).
+Proof. exact TimerWheelWitness.r2_incomplete. Qed.
+
+Print Assumptions C16_dq_init.
+Print Assumptions C16_dq_insert.
+Print Assumptions C16_dq_poll.
+Print Assumptions C16_server_oracle_agrees.
+Print Assumptions C16_dq_incomplete_inside_insert_contract.
